@@ -298,6 +298,91 @@ def _cyclic_job(job):
     return fails
 
 
+def _isolation_job(job):
+    """Handlers registered on a user-defined Builder subclass affect that subclass only: the stock entry points convert
+    every sample exactly as before, and their handler tables are unchanged."""
+    import graphtage
+    from graphtage import IntegerNode, ListNode, StringNode, pydiff
+    from graphtage.builder import BasicBuilder, Builder
+    fails = []
+
+    def fail(kind, what):
+        fails.append({'what': what, 'class': f'c18-{kind}', 'input': {'scenario': job}, 'replay': {'kind': 'isolation', 'job': job}})
+    shared = [7, (8, 9)]
+    samples = [[1, "a", (2, "b", 3.5), {"k": 255, "l": [shared, shared]}, None, True], {"x": [0, -1], "y": {"z": "s"}}, [255, [256]], "txt", 5,
+               [Obj()]]
+
+    def convert():
+        out = []
+        for opt in ({}, {'allow_key_edits': False}):
+            for name, fn in _entry_points(opt).items():
+                for smp in samples:
+                    if name.startswith('json') and 'Obj' in repr(smp):
+                        continue
+                    try:
+                        out.append((name, repr(smp)[:60], gt.canon(fn(smp))))
+                    except Exception as ex:
+                        out.append((name, repr(smp)[:60], f"{type(ex).__name__}: {ex}"))
+        return out
+
+    stock = [BasicBuilder, pydiff.PyObjBuilder, pydiff.ASTBuilder]
+    tables = lambda: {(c.__name__, t): dict(getattr(c, t)) for c in stock for t in ('BUILDERS', 'EXPANDERS')}
+    try:
+        before, tb = convert(), tables()
+
+        if job in ('basic-subclass', 'all'):
+            class HexBuilder(BasicBuilder):
+                @Builder.builder(int)
+                def build_hex(self, obj, _):
+                    return StringNode(hex(obj))
+
+            class RangeBuilder(BasicBuilder):          # (a type the stock builders have no handler for)
+                @Builder.expander(range)
+                def expand_range(self, obj):
+                    yield from obj
+
+                @Builder.builder(range)
+                @Builder.builder(bytes)
+                def build_range(self, obj, children):
+                    return ListNode(children)
+            if RangeBuilder().build_tree([range(2)]).to_obj() != [[0, 1]]:
+                fail('custom-builder-ignored', "a BasicBuilder subclass with handlers for range does not use them")
+            if HexBuilder().build_tree([255, "z"]).to_obj() != ["0xff", "z"]:
+                fail('custom-builder-ignored', "a BasicBuilder subclass with @Builder.builder(int) does not use its handler")
+        if job in ('pyobj-subclass', 'all'):
+            class FlatObj(pydiff.PyObjBuilder):
+                @Builder.builder(Obj)
+                def build_o(self, obj, children):
+                    return StringNode("obj")
+
+                @Builder.expander(Obj)
+                def expand_o(self, obj):
+                    return iter(())
+        if job in ('direct-subclass', 'all'):
+            class Lone(Builder):
+                @Builder.builder(str)
+                def build_s(self, obj, _):
+                    return IntegerNode(len(obj))
+
+                @Builder.builder(dict)
+                def build_d(self, obj, children):
+                    return ListNode(())
+        after, ta = convert(), tables()
+        for k in tb:
+            if tb[k].keys() != ta[k].keys() or any(tb[k][t] is not ta[k][t] for t in tb[k]):
+                diff = sorted(str(t) for t in set(ta[k]) ^ set(tb[k])) or sorted(str(t) for t in tb[k] if tb[k][t] is not ta[k].get(t))
+                fail('builder-registry-leak', f"defining Builder subclasses ({job}) changed {k[0]}.{k[1]}: entries {diff}")
+                break
+        for b, a in zip(before, after):
+            if b != a:
+                fail('conversion-depends-on-other-builders', f"{b[0]}({b[1]}) converts to {str(b[2])[:120]} before and to {str(a[2])[:120]} after "
+                                                             f"unrelated Builder subclasses ({job}) were defined")
+                break
+    except Exception as ex:
+        fail('isolation-exception:' + type(ex).__name__, f"{type(ex).__name__}: {ex} (scenario {job})")
+    return fails
+
+
 def witnesses(func_result, ob, repo_root, tier):
     for opt in ({'allow_key_edits': False}, {}):
         for obj in ({"a": 1}, {"a": [1, {"b": 2}]}):
@@ -309,6 +394,9 @@ def witnesses(func_result, ob, repo_root, tier):
 
 def replay(entry, repo_root):
     r = entry.get('replay') or {}
+    if r.get('kind') == 'isolation':
+        f = _isolation_job(r['job'])
+        return f[0]['what'] if f else None
     if r.get('kind') == 'cyclic':
         f = _cyclic_job((r['idx'], r['opt']))
         return f[0]['what'] if f else None
@@ -320,18 +408,21 @@ def bounded(tier, seed, repo_root):
     objs = acyclic_graphs(rnd, 1500 if tier == 'quick' else 15000)
     shared = [1, 2]
     objs += [[shared, shared], {"a": shared, "b": [shared]}, (shared, [shared, (shared,)]), [[], [], {}], {"a": {}, "b": {}}]
-    opts = [{}, {'allow_key_edits': False}, {'auto_match_keys': False}, {'check_for_cyces': False}, {'allow_list_edits': False}]
+    opts = [{}, {'allow_key_edits': False}, {'auto_match_keys': False}, {'check_for_cycles': False}, {'allow_list_edits': False}]
     jobs = [(o, opts[i % len(opts)]) for i, o in enumerate(objs)]
     fails = [f for fs in pmap(_acyclic_job, jobs, repo_root) for f in fs]
     ncyc = len(cyclic_graphs())
     cj = [(i, o) for i in range(ncyc) for o in ({}, {'ignore_cycles': True}, {'allow_key_edits': False}, {'allow_key_edits': False, 'ignore_cycles': True})]
     fails += [f for fs in pmap(_cyclic_job, cj, repo_root, chunksize=2) for f in fs]
+    # (each scenario in its own pool: the subclasses it defines stay in that worker)
+    for scen in ('basic-subclass', 'pyobj-subclass', 'direct-subclass', 'all'):
+        fails += [f for fs in pmap(_isolation_job, [scen], repo_root, workers=1) for f in fs]
     return [{
         'name': 'C18.object-graphs', 'bound': f"{len(objs)} acyclic structures (<= 5 containers over list/tuple/dict/frozenset with shared "
         f"sub-objects) x build options; {ncyc} cyclic structures (chains of depth 1-3, every placement of one back edge and a second "
         f"back edge to the root, plus {len(custom_cyclic_graphs())} cycles through instances of a custom class for pydiff.build_tree) x {{check, ignore}} x dict strategy; {STEP_TIMEOUT}s step budget",
         'evaluations': len(jobs) * 3 + len(cj) * 3, 'distinct_nontrivial': len({repr(o) for o in objs}) + ncyc, 'exhaustive': False,
         'rule': 'object graph -> every builder entry point: to_obj() equals the original (tuples as lists, sets as multisets), entry '
-                'points agree, copy() == tree, shared sub-objects accepted, cyclic inputs end in ValueError or a placeholder',
+                'points agree, copy() == tree, shared sub-objects accepted, cyclic inputs end in ValueError or a placeholder; defining further Builder subclasses with their own handlers (4 scenarios) changes neither the stock handler tables nor any conversion',
         'failures': fails, 'samples': [repr(o) for o in objs[:3]],
     }]
